@@ -353,9 +353,6 @@ class VQESolver:
         if var_params is None:
             var_params = self.ansatz.var_params
 
-        # Save our current target hamiltonian
-        tmp_hamiltonian = self.qubit_hamiltonian
-
         if isinstance(operator, str):
             if n_active_mos is None:
                 if self.molecule:
@@ -374,7 +371,8 @@ class VQESolver:
         elif isinstance(operator, FermionOperator):
             exp_op = operator
         elif isinstance(operator, QubitOperator):
-            self.qubit_hamiltonian = operator
+            # The solver's own target Hamiltonian is left untouched, whatever happens below
+            target_operator = operator
         else:
             raise TypeError("operator must be a of string, FermionOperator or QubitOperator type.")
 
@@ -387,21 +385,18 @@ class VQESolver:
                 else:
                     raise KeyError("Must supply n_active_electrons, n_active_sos, and spin with a FermionOperator and scbk mapping.")
 
-            self.qubit_hamiltonian = fermion_to_qubit_mapping(fermion_operator=exp_op,
-                                                              mapping=self.qubit_mapping,
-                                                              n_spinorbitals=n_active_sos,
-                                                              n_electrons=n_active_electrons,
-                                                              up_then_down=self.up_then_down,
-                                                              spin=spin)
+            target_operator = fermion_to_qubit_mapping(fermion_operator=exp_op,
+                                                       mapping=self.qubit_mapping,
+                                                       n_spinorbitals=n_active_sos,
+                                                       n_electrons=n_active_electrons,
+                                                       up_then_down=self.up_then_down,
+                                                       spin=spin)
 
         self.ansatz.update_var_params(var_params)
         circuit = ref_state + self.ansatz.circuit
         if self.projective_circuit:
             circuit += self.projective_circuit
-        expectation = self.backend.get_expectation_value(self.qubit_hamiltonian, circuit, **self.simulate_options)
-
-        # Restore the current target hamiltonian
-        self.qubit_hamiltonian = tmp_hamiltonian
+        expectation = self.backend.get_expectation_value(target_operator, circuit, **self.simulate_options)
 
         return expectation
 
